@@ -213,7 +213,7 @@ def _bookkeeping():
     except Exception:
         pass
 _bookkeeping()
-NAME_MODES = ['str', 'int0', 'empty0']
+NAME_MODES = ['str', 'int0', 'empty0', 'person']
 REQUIRED_COUNTERS = ['sel', 'dist', 'seatless', 'tie_in_result', 'modelled', 'refusal', 'few_votes', 'all_equal', 'truncation_empties', 'rotation', 'score_tied']
 RULE = ('every evaluator family built from the public selector/distributor classes of votelib.evaluate.* (shared table harness/families.py + the local '
         'list in this module: open list, list tie-breaker, auxiliary selectors, AlternativeThresholds, the subtract over-award policy, score voting with '
@@ -269,6 +269,12 @@ def generate(rng, tier):
                 n = rng.randint(1, max(1, m // 2))
                 yield {'op': 'shape', 'family': f.name, 'prof': [[i, str(v)] for i, v in enumerate(vals)], 'n': n,
                        '_tags': [f.kind, 'openlist_many_jumpers']}
+    # directed: transferable vote with a candidate that occurs ONLY inside shared ranks and holds two quotas when 3-4 seats are filled
+    for f in F:
+        if f.name.startswith('stv_'):
+            for t in range(12 if tier == 'quick' else 120):
+                prof = fam_mod.gen_ranked_shared_only(rng, 4)
+                yield {'op': 'shape', 'family': f.name, 'prof': prof, 'n': rng.choice([3, 4, 4]), '_tags': [f.kind, 'stv_shared_only_candidate']}
     # directed: a full rotation (everybody tied everywhere) for all but one seat - the multi-seat tie branches of every ranked family
     for f in F:
         if f.vtype in ('ranked', 'ranked_noshared') and f.n_seats:
